@@ -1,3 +1,4 @@
+// @gen gen_c_api.py c_api_table.inc
 // @id C13.c_api_getters
 // @also C05 C09
 // @engine B
@@ -22,7 +23,7 @@
 // @stubs Phreeqc engine (events)
 #include "../common/engine_stubs.inc"
 #include "IPhreeqc.h"
-#include "c_api_table.inc"
+#include <c_api_table.inc>   /* generated into the build directory by gen_c_api.py (@gen) */
 
 static void used_state(IPhreeqc *u, int m)
 {
